@@ -1340,6 +1340,7 @@ func (env *Env) compositeLit(x *ast.CompositeLit) Val {
 			k := env.convertVal(env.eval(kv.Key), env.typeOf(kv.Key), u.Key(), kv.Pos())
 			v := env.convertVal(env.evalLitElem(kv.Value, u.Elem()), env.typeOf(kv.Value), u.Elem(), kv.Pos())
 			cur = env.writePath(cur, []PathElem{{Kind: "mapidx", Idx: k.T}}, env.term(v, kv.Pos()), kv.Pos())
+			cur = env.c.nameTerm(env.st, "maplit", cur) // keep the term linear in the number of entries
 		}
 		return Val{T: cur, GoT: t}
 	}
